@@ -149,6 +149,16 @@ def _pairing(col, rule="C10.R2"):
                 "the temporary enable/disable arguments are undone after the take_best reload, never before it: reload() restores the "
                 "active flags stored with the chosen row, which were recorded under the temporary masks",
                 f"reload reachable after the undo at {[sx.loc(r) for r in after]}")
+    # the selections are optional arguments: only None means "not given" (index 0 is a selection)
+    from .common import truthiness_uses
+    sel = [sx.pnamed(n_) for n_ in ("enable_target", "enable_vary", "enable_vary_name", "disable_target", "disable_vary", "disable_vary_name")
+           if n_ in sx.sym.params]
+    tru = truthiness_uses(sx, sel)
+    col.add(rule, "Optimize.step#selections-tested-against-None", not tru, sx.loc(sx.fn),
+            "whether a temporary enable/disable argument was given is decided by `is None`, never by its truth value (the index 0 "
+            "selects the first knob / target)", "; ".join(tru))
+    if len(pre) < 6 and tru:
+        return
     if len(pre) < 6:
         raise AnalysisError(f"Optimize.step: only {len(pre)} temporary enable/disable applications found before the steps (expected 6)")
 
@@ -504,9 +514,15 @@ def _masks(col, rule="C10.R6"):
 
 
 def check(col: Collector):
-    _callsig(col)
-    _pairing(col)
-    _who_writes(col)
-    _limits(col)
-    _stale_copy(col)
-    _masks(col)
+    with col.rule():
+        _callsig(col)
+    with col.rule():
+        _pairing(col)
+    with col.rule():
+        _who_writes(col)
+    with col.rule():
+        _limits(col)
+    with col.rule():
+        _stale_copy(col)
+    with col.rule():
+        _masks(col)
